@@ -1,3 +1,5 @@
+use std::borrow::Cow;
+
 use linfa::Float;
 use ndarray::{aview1, ArrayBase, Data, Ix2};
 #[cfg(feature = "serde")]
@@ -11,9 +13,18 @@ use crate::{
 /// Spatial indexing structure created by [`KdTree`]
 #[derive(Debug)]
 pub struct KdTreeIndex<'a, F: Float, D: Distance<F>>(
-    kdtree::KdTree<F, (Point<'a, F>, usize), &'a [F]>,
+    kdtree::KdTree<F, (Point<'a, F>, usize), Cow<'a, [F]>>,
     D,
 );
+
+/// Coordinates of a point as a slice: borrowed when the view is contiguous, copied otherwise
+/// (rows of a Fortran-order or sliced batch, a column of a matrix used as query point).
+fn coords<'a, F: Float>(point: &Point<'a, F>) -> Cow<'a, [F]> {
+    match point.to_slice() {
+        Some(slice) => Cow::Borrowed(slice),
+        None => Cow::Owned(point.to_vec()),
+    }
+}
 
 impl<'a, F: Float, D: Distance<F>> KdTreeIndex<'a, F, D> {
     /// Creates a new `KdTreeIndex`
@@ -29,11 +40,7 @@ impl<'a, F: Float, D: Distance<F>> KdTreeIndex<'a, F, D> {
         } else {
             let mut tree = kdtree::KdTree::with_capacity(batch.ncols().max(1), leaf_size);
             for (i, point) in batch.rows().into_iter().enumerate() {
-                tree.add(
-                    point.to_slice().expect("views should be contiguous"),
-                    (point, i),
-                )
-                .unwrap();
+                tree.add(coords(&point), (point, i)).unwrap();
             }
             Ok(Self(tree, dist_fn))
         }
@@ -54,11 +61,9 @@ impl<F: Float, D: Distance<F>> NearestNeighbourIndex<F> for KdTreeIndex<'_, F, D
     fn k_nearest(&self, point: Point<'_, F>, k: usize) -> Result<Vec<(Point<F>, usize)>, NnError> {
         Ok(self
             .0
-            .nearest(
-                point.to_slice().expect("views should be contiguous"),
-                k,
-                &|a, b| self.1.rdistance(aview1(a), aview1(b)),
-            )?
+            .nearest(&coords(&point), k, &|a, b| {
+                self.1.rdistance(aview1(a), aview1(b))
+            })?
             .into_iter()
             .map(|(_, (pt, pos))| (pt.reborrow(), *pos))
             .collect())
@@ -72,11 +77,9 @@ impl<F: Float, D: Distance<F>> NearestNeighbourIndex<F> for KdTreeIndex<'_, F, D
         let range = self.1.dist_to_rdist(range);
         Ok(self
             .0
-            .within(
-                point.to_slice().expect("views should be contiguous"),
-                range,
-                &|a, b| self.1.rdistance(aview1(a), aview1(b)),
-            )?
+            .within(&coords(&point), range, &|a, b| {
+                self.1.rdistance(aview1(a), aview1(b))
+            })?
             .into_iter()
             // `kdtree::within` keeps points lying exactly on the radius; the linear scan and the
             // ball tree return the points strictly inside it
